@@ -218,7 +218,10 @@ def run_batch(ctx, hists, tag):
         for h in hists:
             fh.write("\n".join(h) + "\n")
     rc, R = run_harness(exe, p, h5)
-    rcm, MS = vc.run_lines(mod, p, timeout=1200)
+    # the extracted model keeps arrays as lists: deep recursion on the multi-megabyte cases needs a large stack
+    rcm, out = vc.sh(["sh", "-c", "ulimit -s unlimited 2>/dev/null || ulimit -s 4000000 2>/dev/null; exec \"$0\" \"$1\"", mod, p],
+                     timeout=1200)
+    MS = out.splitlines()
     os.unlink(p)
     import glob
     for x in glob.glob(h5 + "*"):
@@ -513,6 +516,48 @@ def corpus(ctx):
     return hs
 
 
+def big_histories(rng, thorough=False):
+    """First writes far into a large new fixed-size dataset (lead-in / remainder above MAX_SIZE = 1,000,000 bytes,
+    not multiples of it): the chunked fill loops of hdf_xdr_NCvdata.  Only the written slab, a small window around
+    it and samples of the fill region are read back (the extracted array model is a list: cost ~ cells x size).
+    Wide element types keep the cell count low for the same byte offsets; the int8 case with 2,300,000 cells
+    runs in the thorough tier."""
+    hs = []
+
+    def vals(n, w):
+        return ["".join("%02x" % ((37 + 11 * i + 3 * k) & 255) for k in range(w)) for i in range(n)]
+
+    def one_d(nt, w, n, s, c, fill):
+        pts = sorted(set([0, 1000000 // w - 1, 2000000 // w - 1, n - 2]))
+        h = ["H 1 %d 0 %d" % (nt, n)]
+        if fill:
+            h.append("V " + "".join("%02x" % (0xc3 + k) for k in range(w)))
+        h.append("W %d %d 1 %d %d %s" % (rng.choice([0, 1]), s, c, c, " ".join(vals(c, w))))
+        lo = max(s - 3, 0)
+        rd = ["R 0 %d 1 %d" % (lo, min(c + 6, n - lo))]
+        rd += ["R 0 %d 1 2" % q for q in pts if 0 <= q < n - 1]
+        rd += ["R 1 1 %d %d" % (500000 // w, min(4, (n - 2) // (500000 // w) + 1))]
+        return h + rd + ["G", "C"] + rd + ["E"]
+
+    hs.append(one_d(6, 8, 290000, 154321 + rng.randrange(0, 100), 7, False))             # lead-in 1.23 MB
+    hs.append(one_d(16384 | 6, 8, 290000, 250001 + rng.randrange(0, 20000), 5, True))     # lead-in > 2 MB
+    hs.append(one_d(24, 4, 700000, 600123 + rng.randrange(0, 50), 10, False))             # the 2.4 MB int32 case
+    hs.append(one_d(4096 | 6, 8, 290000, 3 + rng.randrange(0, 90), 4, True))              # remainder > 2 * MAX_SIZE
+    hs.append(one_d(6, 8, 290000, 125000, 6, False))                                      # lead-in exactly MAX_SIZE
+    if thorough:
+        hs.append(one_d(20, 1, 2300000, 1234567 + rng.randrange(0, 1000), 7, False))
+        hs.append(one_d(16384 | 21, 1, 2300000, 2000001 + rng.randrange(0, 200000), 5, True))
+    for row, col in ((155 + rng.randrange(0, 5), 123), (260 + rng.randrange(0, 9), 777)):
+        nt, w, d0, d1 = 6, 8, 300, 1000
+        h = ["H 2 %d 0 %d %d" % (nt, d0, d1),
+             "W 1 %d %d 1 2 2 3 6 %s" % (row, col, " ".join(vals(6, w)))]
+        rd = ["R 0 %d %d 1 1 2 7" % (row, col - 1), "R 0 %d %d 1 1 2 2" % (row - 1, d1 - 2),
+              "R 0 0 0 1 1 1 2", "R 0 124 998 1 1 2 2", "R 0 %d %d 1 1 1 2" % (d0 - 1, d1 - 2),
+              "R 1 0 %d 100 1 3 1" % col]
+        hs.append(h + rd + ["G", "C"] + rd + ["E"])
+    return hs
+
+
 def exhaustive_small(rng):
     """Rank <= 2, extents <= 3: every (start, stride, count) with start in -1..d, stride 1..2, count 0..d+1
     (thorough tier), written then read back through a different full read."""
@@ -549,9 +594,11 @@ def run(ctx):
     hists += [g.history() for _ in range(n)]
     hists += [g.history(spot=8) for _ in range(6 if ctx.tier == "quick" else 60)]
     hists += [g.history(spot=32) for _ in range(4 if ctx.tier == "quick" else 40)]
+    big = big_histories(ctx.rng, ctx.tier == "thorough")
+    hists += big
     if ctx.tier == "thorough":
         hists += exhaustive_small(ctx.rng)
-    stats = {"histories": len(hists), "corpus": ncorpus, "ops": {}, "write_ok": 0, "write_fail": 0, "write_any": 0,
+    stats = {"histories": len(hists), "corpus": ncorpus, "large_offset_histories": len(big), "ops": {}, "write_ok": 0, "write_fail": 0, "write_any": 0,
              "read_ok": 0, "read_fail": 0, "read_any": 0, "cells_compared": 0, "unlimited": 0, "strided_ops": 0,
              "reopen": 0, "nofill_histories": 0, "rank_hist": {}, "type_hist": {}, "harness_deaths": 0,
              "model_compared_ops": 0}
